@@ -177,8 +177,8 @@ class C17(PropCheck):
             "built-in glue, both, neither, raising glue; concurrent: 2-4 threads, a second extraction started while the "
             "first is blocked inside the glue call of each module in turn; non-trivial = some glue ran; distinct = history")
     manifest = {
-        "text": "Lean: C17_once_vanishing / C17_module_first_vanishing (exactly once, never both kinds, module glue first — for every history in which, additionally, any set of modules may vanish from sys.modules while a scan is in progress: the repaired F16), C17_vanishing_conservative (with nothing vanishing the extended scan is the plain one), C17_F16_old_code_witness / C17_F16_repaired; C17_once (over every history of insertions, removals, re-insertions and extractions no module ever has a glue function called twice, nor one of each kind), C17_module_first (built-in glue only runs for modules without their own), C17_raise_only_warns (whether glue raises changes nothing but the inserted warnings: same calls, same order, same bookkeeping), C17_in_time_partial (for histories without removals, when an extraction returns every present module's glue has been dealt with), C17_F4_witness / C17_F4_recovers (the full in-time statement is false: remove one module, add a glue-bearing one — known finding F4). Tie: real call logs of generated histories vs the model; threads entering extract while another scan is blocked inside each glue call are judged by the oracle.",
-        "note": "The concurrent half (several threads) is not proved: the model contains the lock and per-thread program counters (SS.Glue.cstep) but only the sequential theorems are established; concurrency is exercised on the real code with glue calls as preemption points. Atomicity of dict.pop under the GIL is assumed.",
+        "text": "Lean: C17_conc_once, C17_conc_module_first, C17_conc_mutex (exactly once / never both kinds / module glue first / mutual exclusion of scans for any number of threads under every schedule, by an invariant over atomic steps), C17_once_vanishing / C17_module_first_vanishing (exactly once, never both kinds, module glue first — for every history in which, additionally, any set of modules may vanish from sys.modules while a scan is in progress: the repaired F16), C17_vanishing_conservative (with nothing vanishing the extended scan is the plain one), C17_F16_old_code_witness / C17_F16_repaired; C17_once (over every history of insertions, removals, re-insertions and extractions no module ever has a glue function called twice, nor one of each kind), C17_module_first (built-in glue only runs for modules without their own), C17_raise_only_warns (whether glue raises changes nothing but the inserted warnings: same calls, same order, same bookkeeping), C17_in_time_partial (for histories without removals, when an extraction returns every present module's glue has been dealt with), C17_F4_witness / C17_F4_recovers (the full in-time statement is false: remove one module, add a glue-bearing one — known finding F4). Tie: real call logs of generated histories vs the model; threads entering extract while another scan is blocked inside each glue call are judged by the oracle.",
+        "note": "Concurrency: C17_conc_once / C17_conc_once_log / C17_conc_module_first / C17_conc_mutex hold for any number of threads and every interleaving of their atomic steps with insertions and removals (SSModel/GlueConc.lean); the granularity (both pops for a name in one step) relies on only the lock holder scanning, and on dict.pop being atomic under the GIL. 'In time' under concurrency (a later extraction waits for the scan in progress) is checked on the real code with glue calls as preemption points and compared with the model's log under the same schedule, but not proved (it needs the lock's blocking semantics and fairness). In-time for histories with removals is false (F4).",
     }
     assumptions = ["dict.pop and len() are atomic under the GIL", "fake modules stand for real library modules"]
 
@@ -208,6 +208,13 @@ class C17(PropCheck):
         return out
 
     def model_line(self, case):
+        if case["k"] == "conc":
+            # the same schedule on the model's threads: thread 0 scans up to the glue call of `block_at`, the others enter
+            # and wait for the lock, thread 0 finishes, the others finish
+            n = case["threads"]
+            sched = [["insert", m[0]] for m in case["mods"]] + [["until_popped", 0, case["block_at"]]]
+            sched += [["until_stuck", i] for i in range(1, n)] + [["until_stuck", 0]] + [["until_stuck", i] for i in range(1, n)]
+            return json.dumps({"p": "C17", "mods": case["mods"], "threads": n, "sched": sched})
         if case["k"] != "seq":
             return None
         return json.dumps({"p": "C17", "mods": case["mods"], "ops": case["ops"]})
@@ -267,6 +274,8 @@ class C17(PropCheck):
         return results
 
     def canon(self, case, real):
+        if isinstance(real, dict) and "log" in real and not real.get("error"):
+            return " ".join(real["log"])
         return real if isinstance(real, str) else json.dumps(real, sort_keys=True)
 
     # ---- the property on the real log ---------------------------------------------------------
